@@ -558,4 +558,19 @@ def iterHashed (c ds : Nat) : Nat × Nat :=
   let count := max (decodeCount c) ds
   iterLoop ds (count + 1) count
 
+/-! ## 9. `SignatureManyReader`: one hasher per signature packet
+
+`reader/signed_many.rs`: the reader holds one `Option<hasher>` per One-Pass Signature (or prefixed
+signature) packet of the message and feeds every buffer of the data to every one of them. -/
+
+/-- octets each hasher has seen after the buffers `chunks` (lengths) went through `fill_inner` -/
+def feedHashers (hashers : List Nat) (chunks : List Nat) : List Nat :=
+  chunks.foldl (fun hs c => hs.map (· + c)) hashers
+
+/-- total hashing work of reading a message with `n` signature packets -/
+def sigHashWork (n : Nat) (chunks : List Nat) : Nat := (feedHashers (List.replicate n 0) chunks).sum
+
+/-- octets of a message with `n` one-pass signatures: `n` OPS packets, the data, `n` signature packets -/
+def opsMessageSize (n opsLen sigLen dataLen : Nat) : Nat := n * opsLen + dataLen + n * sigLen
+
 end Rpgp.Resource
